@@ -322,13 +322,56 @@ struct Source {
 }
 
 enum Origin {
+    /// built through the API, saved and re-loaded: the initial state is a LOADED workbook with a particular shape
+    Special(&'static str),
     Corpus(String),
     Lattice(u32),
     Channel(usize, usize),
 }
 
+pub const SPECIALS_C04: [&str; 2] = ["shared-formula-group", "column-entries-with-gap"];
+
+fn build_special(name: &str) -> Spreadsheet {
+    let mut b = new_file();
+    let ws = b.get_sheet_mut(&0).unwrap();
+    match name {
+        "shared-formula-group" => {
+            // master D2 = A2*2 shared with D3..D5 (children carry only the view text, as after a load)
+            for k in 0..4u32 {
+                ws.get_cell_mut((1u32, 2 + k)).set_value_number(k as f64 + 1.0);
+                let mut obj = CellFormula::default();
+                obj.set_formula_type(CellFormulaValues::Shared);
+                obj.set_shared_index(0);
+                if k == 0 {
+                    obj.set_text("A2*2");
+                } else {
+                    obj.set_text_view(format!("A{}*2", 2 + k));
+                }
+                let c = ws.get_cell_mut((4u32, 2 + k));
+                c.get_cell_value_mut().set_formula_obj(obj);
+                c.set_formula_result_default(format!("{}", (k + 1) * 2));
+            }
+        }
+        _ => {
+            // column entries on C..G and I only (adjacent equal pairs, then a change; H is a second gap), cells also in A and B which have no entry of their own
+            for (col, w) in [(3u32, 20.0), (4u32, 20.0), (5u32, 12.0), (6u32, 12.0), (7u32, 30.0), (9u32, 30.0)] {
+                ws.get_column_dimension_by_number_mut(&col).set_width(w);
+            }
+            ws.get_cell_mut("C1").set_value_string("c");
+            ws.get_cell_mut("F2").set_value_number(6);
+        }
+    }
+    b
+}
+
 fn load_origin(o: &Origin) -> Result<Spreadsheet, String> {
     match o {
+        Origin::Special(name) => {
+            let n = *name;
+            let b = std::panic::catch_unwind(move || build_special(n)).map_err(|e| panic_msg(&e))?;
+            let (_, b2) = roundtrip(&b, false)?;
+            Ok(b2)
+        }
         Origin::Corpus(p) => {
             let data = std::fs::read(p).map_err(|e| e.to_string())?;
             load_bytes(&data, true)
@@ -489,6 +532,13 @@ impl Space for Stability {
             if hc < 16000 && hr < 1_000_000 {
                 coords.push((hc + 2, hr + 2)); // one fresh position
             }
+            // a fresh position in the first column that has no column entry of its own but lies left of one
+            let entries: std::collections::BTreeSet<u32> = ws.get_column_dimensions().iter().map(|c| *c.get_col_num()).collect();
+            if let Some(maxc) = entries.iter().max() {
+                if let Some(gap) = (1..*maxc).find(|c| !entries.contains(c)) {
+                    coords.push((gap, hr.max(1) + 3));
+                }
+            }
             for (ci, (col, row)) in coords.iter().enumerate() {
                 for (k, kind) in EDIT_KINDS.iter().enumerate() {
                     // all kinds for the first cells, then rotate kinds to keep the cost linear
@@ -607,6 +657,9 @@ pub fn space(tier: Tier, id: &str) -> Option<Box<dyn Space>> {
                 }
                 items.push((Origin::Lattice(s), Source { kind: "lattice", name: format!("lattice:{:011b}", s), tags, light: s % 2 == 1 }));
             }
+            for sp in SPECIALS_C04 {
+                items.push((Origin::Special(sp), Source { kind: "special", name: format!("special:{}", sp), tags: vec![format!("special:{}", sp)], light: false }));
+            }
             for (ci, ch) in CHANNELS.iter().enumerate() {
                 for (si, (sn, _)) in SPECIALS.iter().enumerate() {
                     if channel_accepts(ch, sn) && !(*ch == "defined-name-formula" && *sn == "edge-blank") {
@@ -635,7 +688,7 @@ fn run(ctx: &Ctx) -> i32 {
             cfg: PoolCfg { chunk: 1, case_timeout: std::time::Duration::from_secs(180), ..Default::default() },
             level: "model_checking",
             rule: "histories over {S = save+reload, E(c,k) = single-cell edit} from every initial state (corpus file / generated lattice workbook / channel workbook): S, SS, SSS; E(c,k) S for every cell c (capped per sheet, cap stated) + the last cell + one fresh position and k in {set text, set number, set blank, remove}; save twice. Oracle: full normalised dump gen1==gen2==gen3, orig==gen1, dump(E S) differs from dump(S) only in cell c and its row/column entry, two saves of one workbook have the same parts and part contents. states = distinct generation dumps, transitions = save/reload steps executed (each on the real library)".into(),
-            alphabets: json!({"edit_kinds": EDIT_KINDS, "corpus_files": corpus_files().len(), "lattice_subsets": lattice_subsets(ctx.tier).len(), "channels": CHANNELS.len(), "specials": SPECIALS.len()}),
+            alphabets: json!({"edit_kinds": EDIT_KINDS, "loaded_specials": SPECIALS_C04, "corpus_files": corpus_files().len(), "lattice_subsets": lattice_subsets(ctx.tier).len(), "channels": CHANNELS.len(), "specials": SPECIALS.len()}),
             bounds: json!({"generations": 3, "edit_time_budget_per_source_ms": if ctx.tier == Tier::Quick {1500} else {60000}, "edit_cap_per_sheet": if ctx.tier == Tier::Quick {"2 (corpus), 64 (generated)"} else {"64"}, "corpus": if ctx.tier == Tier::Quick {"files <= 60 kB, standard writer"} else {"all files, both writers; workbooks with more than 40 000 cells (3 corpus files) are compared by streaming field-hash dumps: generations only, no edit enumeration"},
                 "normalised_away_on_both_sides": ["a style component that was never set == the workbook default component (calibrated per workbook)", "defined names compared by scope, not by holder object", "blank cells without formatting/hyperlink", "row entries carrying nothing", "column entries carrying only the default width", "docProps parts and sharedStrings count attributes in the save-twice comparison"]}),
             exhaustive: true,
